@@ -31,6 +31,7 @@ F = Fraction
 def gen_history(ctx, rng):
     space = c04.gen_space(rng, ["x", "t", "y"], 1, 2)
     nd = rng.randint(1, 2)
+    tn = rng.choice([1, 2, 3])          # number of rows of every stored table of this history (= points of their conditions)
     dicts = [[]]
     for _ in range(nd):
         # value kinds of a user dict: plain callables / UserFunction objects / mixed / a constant tensor; an explicitly
@@ -42,6 +43,17 @@ def gen_history(ctx, rng):
             fn = c04.gen_const(rng, n, rng.randint(1, 2)) if rng.random() < 0.1 else gen_fn(rng, n, space, rng.randint(1, 2))
             fn["wrap"] = vkind == "wrapped" or (vkind == "mixed" and rng.random() < 0.5)
             d.append(fn)
+        # further legal kinds of entries: a plain number, a TABLE of precomputed values (tensor with one row per point),
+        # a callable that returns a stored table (measured values on a fixed grid)
+        for k_, fn in enumerate(d):
+            r_ = rng.random()
+            if r_ < 0.06:
+                d[k_] = dict(name=fn["name"], form="number", params=[], defaults=[], kwonly=0, wrap=False,
+                             body=[pe_to_json(("c", cc.dy(rng)))])
+            elif r_ < 0.3:
+                od = len(fn["body"])
+                d[k_] = dict(name=fn["name"], form="table" if r_ < 0.18 else "stored", params=[space[0][0]], defaults=[], kwonly=0,
+                             wrap=(r_ < 0.12), body=[["c", "0"]] * od, rows=gen_rows(rng, tn, od), tn=tn)
         dicts.append(d)
     if nd == 2 and dicts[1] and rng.random() < 0.5:
         # the SAME function object (plain callable or UserFunction object) sits in two different user dicts
@@ -72,14 +84,21 @@ def gen_history(ctx, rng):
                 resid["body"][0] = ["+", resid["body"][0], ["v", d["name"], 0]]
         if out_space[0][0] not in resid["params"]:
             resid["params"].insert(0, out_space[0][0])
-        cls = rng.choice(["pinn", "pinn", "mean"])
+        cls = rng.choice(["pinn", "pinn", "mean", "int"])
+        tables = [d for d in dicts[dref] if d.get("form") in ("table", "stored")]
         c = dict(cid=cid, dref=dref, space=sp, net=net, param=param, resid=resid, cls=cls,
-                 static=rng.random() < 0.6, n=rng.choice([1, 2, 3]), share={})
-        if conds and rng.random() < 0.4:
+                 static=rng.random() < 0.6, n=tables[0]["tn"] if tables else rng.choice([1, 2, 3]), share={})
+        if cls == "int":
+            # IntegroPINNCondition whose residual does not read the `_integral` sets: the PINN loss on (n, 1, dim) tensors
+            iv = rng.choice(sp)
+            c.update(ivar=iv, irows=gen_rows(rng, rng.choice([1, 2]), iv[1]))
+            if any(d.get("form") == "stored" for d in dicts[dref]):
+                c["static"] = True        # a stored (n, d) table only fits the (n, 1, dim) layout after the pre-evaluation
+        if conds and rng.random() < 0.4 and cls != "int" and not tables:
             # this condition is built from the very same OBJECTS as an earlier one: the model, the residual
             # function, possibly the (non-static) sampler object — everything but its own static flag / draws
             j = rng.choice(conds)
-            c.update(dref=j["dref"], space=j["space"], net=j["net"], param=j["param"], resid=j["resid"], n=j["n"])
+            c.update(dref=j["dref"], space=j["space"], net=j["net"], param=j["param"], resid=j["resid"], n=j["n"], cls=j["cls"] if j["cls"] != "int" else "pinn")
             c["share"] = dict(model=j["cid"], resid=j["cid"] if rng.random() < 0.7 else None)
             if not j["static"] and rng.random() < 0.5:
                 c["static"] = False
@@ -527,12 +546,53 @@ def _next_sampler_cls():
     return C["NextSampler"]
 
 
+def fingerprint(v):
+    """value-level fingerprint of a user object: tensors by shape, dtype and values; UserFunction objects by the
+    identity of what they wrap and their argument / default lists; everything else by identity"""
+    import torch
+    if torch.is_tensor(v):
+        return ("tensor", tuple(v.shape), str(v.dtype), v.detach().reshape(-1).tolist())
+    if hasattr(v, "fun") and hasattr(v, "args") and hasattr(v, "defaults"):
+        f = v.fun
+        return ("UserFunction", fingerprint(f) if torch.is_tensor(f) else id(f), list(v.args) if not isinstance(v.args, dict) else sorted(v.args),
+                sorted((k, str(x)) for k, x in dict(v.defaults).items()))
+    if isinstance(v, (int, float)):
+        return ("number", v)
+    return ("object", id(v))
+
+
+def build_entry(C, spec, sink, tables):
+    """one entry of a user's data-function dict, of any legal kind"""
+    torch = C["torch"]
+    form = spec.get("form")
+    if form == "number":
+        return float(F(spec["body"][0][1]))
+    if form in ("table", "stored"):
+        T = torch.tensor([[float(F(v)) for v in r] for r in spec["rows"]], dtype=torch.float64)
+        tables.append(T)
+        if form == "table":
+            return C["tp"].utils.UserFunction(T) if spec.get("wrap") else T
+        return cc.mk_user_fn(spec["name"], spec["params"], [], lambda args, T=T: T)     # measured values on a fixed grid
+    return build_fn(C, spec, sink)
+
+
+def entry_tok(f):
+    if f.get("form") in ("table", "stored"):
+        return f"{f['name']} tensor {tok_table(prow(f['rows']))}"
+    return f"{f['name']} {'wrapped' if f.get('wrap') else 'raw'} {fn_tok(f)}"
+
+
+def entry_tag(f):
+    return "tensor" if f.get("form") in ("table", "stored") else "wrapped" if f.get("wrap") else "raw"
+
+
 def run_history(case, only=None):
     """run the history (or only the operations of condition `only`) on fresh objects"""
     C = classes()
     tp, torch = C["tp"], C["torch"]
     NextSampler = _next_sampler_cls()
     sink = []
+    tables = []          # the user's stored tables (also those hidden behind a callable)
     pydicts, originals = [], []
     for d in case["dicts"]:
         fns = {}
@@ -541,9 +601,11 @@ def run_history(case, only=None):
                 di, fi = spec["same_as"]
                 fns[spec["name"]] = pydicts[di][case["dicts"][di][fi]["name"]]      # the same object again
             else:
-                fns[spec["name"]] = build_fn(C, spec, sink)
+                fns[spec["name"]] = build_entry(C, spec, sink, tables)
         pydicts.append(fns)
         originals.append(dict(fns))
+    prints = [{k: fingerprint(v) for k, v in d.items()} for d in pydicts]
+    table_prints = [fingerprint(t) for t in tables]
     state = {}
     objs = {}            # cid -> (model, residual function, inner sampler) for object sharing between conditions
     outs = []
@@ -583,8 +645,13 @@ def run_history(case, only=None):
                 if c["param"]:
                     pn, pv = c["param"][0]
                     kw["parameter"] = tp.models.Parameter([float(F(v)) for v in pv], mk_space([[pn, len(pv)]]))
-                Cls = tp.conditions.PINNCondition if c["cls"] == "pinn" else tp.conditions.MeanCondition
-                state[op["cid"]] = (Cls(model, sampler, resid, **kw), inner)
+                if c["cls"] == "int":
+                    isamp = C["ListSampler"]([c["ivar"]], [prow(c["irows"])]).make_static()
+                    cond = tp.conditions.IntegroPINNCondition(model, sampler, resid, isamp, **kw)
+                else:
+                    Cls = tp.conditions.PINNCondition if c["cls"] == "pinn" else tp.conditions.MeanCondition
+                    cond = Cls(model, sampler, resid, **kw)
+                state[op["cid"]] = (cond, inner)
                 outs.append((op["cid"], "-"))
             else:
                 cond, inner = state[op["cid"]]
@@ -594,10 +661,13 @@ def run_history(case, only=None):
             outs.append((op["cid"], c04.classify_exc(e)))
         del sink[:]
     report = []
-    for d, o in zip(pydicts, originals):
+    for d, o, pr in zip(pydicts, originals, prints):
+        changed = [k for k in o if k in d and fingerprint(d[k]) != pr[k]]
         report.append(dict(keys=list(d.keys()), same_objects=all(d.get(k) is o[k] for k in o),
-                           types=[type(d[k]).__name__ for k in d]))
-    return dict(outs=outs, dicts=report)
+                           types=[type(d[k]).__name__ for k in d], changed=changed,
+                           detail={k: (str(pr[k])[:120], str(fingerprint(d[k]))[:120]) for k in changed}))
+    stored_changed = [i for i, (t, pr) in enumerate(zip(tables, table_prints)) if fingerprint(t) != pr]
+    return dict(outs=outs, dicts=report, stored_changed=stored_changed)
 
 
 _IMMUTABLE = (type(None), bool, int, float, complex, str, bytes, tuple, frozenset, type)
@@ -672,7 +742,7 @@ def line_history(case, mode="new"):
         r = c["resid"]
         resid = cc.tok_ufun(dict(params=r["params"], defaults=[(n, [F(v) for v in vs]) for n, vs in r["defaults"]],
                                  body=[pe_from_json(b) for b in r["body"]]))
-        err, red = ("sq", "mean") if c["cls"] == "pinn" else ("id", "mean")
+        err, red = ("id", "mean") if c["cls"] == "mean" else ("sq", "mean")
         return " ".join(["c", str(c["cid"]), str(c["dref"]), tok_space(c["space"]), net_tok(c["net"]), resid,
                          tok_named([(n, [F(v) for v in vs]) for n, vs in c["param"]]), err, red,
                          "1" if c["static"] else "0", tok_table(prow(fresh))])
@@ -685,7 +755,7 @@ def line_history(case, mode="new"):
             continue
         c = case["conds"][op["cid"] - 1]
         ops.append(cond_tok(c, op["fresh"]) if op["op"] == "c" else f"e {op['cid']} {tok_table(prow(op['fresh']))}")
-    dicts = lst(case["dicts"], lambda d: lst(d, lambda f: f"{f['name']} {'wrapped' if f.get('wrap') else 'raw'} {fn_tok(f)}"))
+    dicts = lst(case["dicts"], lambda d: lst(d, entry_tok))
     return f"run {mode} {dicts} {lst(ops)}"
 
 
@@ -704,8 +774,10 @@ def judge_history(rep, case, res, alone, reply):
             rep.count("history:shared-by-two-static")
     if len(shared.get(0, [])) >= 2:
         rep.count("history:default-argument-shared")
+    for c in case["conds"]:
+        rep.count("history:class=" + c["cls"] + (":static" if c["static"] else ""))
     for i, d in enumerate(case["dicts"][1:], 1):
-        kinds = sorted({"const" if f.get("form") == "const" else "UserFunction" if f.get("wrap") else "plain" for f in d})
+        kinds = sorted({f["form"] if f.get("form") in ("const", "number", "table", "stored") else "UserFunction" if f.get("wrap") else "plain" for f in d})
         rep.count("history:dict-values=" + ("+".join(kinds) if kinds else "empty"))
         if len(shared.get(i, [])) >= 2 and kinds == ["UserFunction"]:
             rep.count("history:all-UserFunction-dict-shared")
@@ -734,6 +806,10 @@ def judge_history(rep, case, res, alone, reply):
         if d["keys"] != [f["name"] for f in spec] or not d["same_objects"]:
             rep.fail(f"user dict {i} was modified: keys {d['keys']}, holds {d['types']} (the user's own function objects: {d['same_objects']})",
                      case, detail=d)
+        elif d.get("changed"):
+            rep.fail(f"the user's objects in dict {i} were changed in place (shape / dtype / values / wrapped function): {d['detail']}", case, detail=d)
+    if res.get("stored_changed"):
+        rep.fail(f"a table of values the user keeps (behind a data-function entry) was changed in place: tables {res['stored_changed']}", case)
     for b in defaults_clean():
         rep.fail(b, case)
     # ---- correspondence
@@ -751,7 +827,7 @@ def judge_history(rep, case, res, alone, reply):
         if not ok:
             rep.disagree("history outputs: drivers/C14.lean `run new` vs the real conditions", case, res["outs"], reply)
             return
-    want_tags = " ; ".join(" ".join(f"{f['name']}:{'wrapped' if f.get('wrap') else 'raw'}" for f in d) for d in case["dicts"])
+    want_tags = " ; ".join(" ".join(f"{f['name']}:{entry_tag(f)}" for f in d) for d in case["dicts"])
     if tags.strip() != want_tags.strip():
         rep.disagree("history: model's user dicts changed", case, want_tags, tags)
 
